@@ -72,7 +72,7 @@ def diagnose(ck, sk_text, gl_text, st_text=None):
     parts = text.split("     = ")
     out["check_globals"] = coq_strings(parts[1]) if (rc == 0 and len(parts) == 2) else ["<diagnostic evaluation failed: %s>" % re.sub(r"\s+", " ", text[-400:])]
     if st_text is not None:
-        v3 = strip(st_text) + "\nEval vm_compute in (vcheck_program static_entry_points).\n"
+        v3 = strip(st_text) + "\nEval vm_compute in (List.app (vcheck_program static_entry_points) (warmup_diag static_entry_points)).\n"
         rc, text = ck.coq_eval(v3, name="c11_diag_statics", timeout=300)
         parts = text.split("     = ")
         out["check_statics"] = coq_strings(parts[1]) if (rc == 0 and len(parts) == 2) else ["<diagnostic evaluation failed: %s>" % re.sub(r"\s+", " ", text[-400:])]
@@ -97,6 +97,8 @@ def stress_plan(rng, tier):
             ("codegen", sd(), 4, 200, 0),
             ("codegen", sd(), 8, 100, 0),
             ("ownrt", sd(), 8, 300, 1),
+            ("sweep", sd(), 8, 8, 0),
+            ("multirt", sd(), 8, 1500, 4),
         ]
     plan = [
         ("alloc", sd(), 2, 300000, 0),
@@ -114,6 +116,10 @@ def stress_plan(rng, tier):
         ("codegen", sd(), 16, 1000, 0),
         ("ownrt", sd(), 8, 3000, 1),
         ("ownrt", sd(), 16, 1500, 0),
+        ("sweep", sd(), 8, 8, 0),
+        ("sweep", sd(), 16, 32, 0),
+        ("multirt", sd(), 8, 20000, 4),
+        ("multirt", sd(), 16, 8000, 6),
     ]
     for rep in range(12):
         plan.append(("alloc", sd(), rng.choice([2, 3, 5, 8, 12, 16]), 100000, rng.choice([0, 1, 2, 4, 6, 8, 10, 16, 22])))
@@ -176,6 +182,96 @@ def regen_own(ck, files):
     return wgen, failed, log
 
 
+def allow_list_justifications():
+    """(translation unit, symbol, required kind, why) of every allow-listed writable global, read from LockModel.v"""
+    txt = open(os.path.join(vlib.COQ, "theories", "Conc", "LockModel.v")).read()
+    m = re.search(r"Definition allowed_globals.*?:=\s*\[(.*?)\]\.", txt, re.S)
+    out = []
+    if m:
+        for tu, sym, kind, why in re.findall(r'\(\s*"([^"]*)",\s*"([^"]*)",\s*"([^"]*)",\s*"([^"]*)"\s*\)', m.group(1), re.S):
+            out.append({"translation_unit": tu, "symbol": sym, "kind": kind, "why": re.sub(r"\s+", " ", why)})
+    return out
+
+
+# ------------------------------------------------------------------ seq_refines checked on real concurrent executions
+def sections_plan(rng, tier):
+    """(seed, threads, ops per thread, options, granularity, block size)"""
+    sd = lambda: rng.randrange(1, 1 << 30)
+    plan = [(sd(), 4, 400, 0, 64, 65536), (sd(), 8, 250, 2, 64, 65536), (sd(), 16, 120, 8, 128, 65536), (sd(), 3, 500, 16 | 2, 256, 131072)]
+    if tier != "quick":
+        plan += [(sd(), rng.choice([2, 4, 8, 12, 16]), 1500, rng.choice([0, 2, 8, 10, 16, 18, 26]), rng.choice([64, 128, 256]),
+                  rng.choice([65536, 131072, 1 << 20])) for _ in range(24)]
+    return plan
+
+
+def sections_check(ck, rng):
+    """harness/c11_sections.cpp: N threads on one allocator, every critical section captured (acquire order, abstract state at the
+    release); the extracted C09 model replays the operations in acquire order: answer, block table (D) and counters (T) of EVERY
+    section must equal the model's."""
+    exe = ck.build_harness("c11sec", ["c11_sections.cpp"], variant="plain")
+    vlib.sh("./mkproject.sh", cwd=vlib.COQ, timeout=120)      # the C09 theories may be newer than this tree's Makefile
+    failed = ck.coq_make(["theories/Jit/JitModel.vo", "theories/Jit/JitCursorModel.vo", "theories/Jit/JitSpec.vo", "theories/Jit/JitVmModel.vo"])
+    if failed:
+        raise RuntimeError("cannot build the C09 model theories needed for the sections replay: %s" % failed)
+    model = ck.ocaml_model("Extract_Jit.v", ["zconv.ml", "c09_driver.ml"], name="c09")
+    info = {"runs": 0, "sections": 0, "sections_by_op": {}, "interleaved_sections": 0, "mismatches": 0, "configs": []}
+    for cfg in sections_plan(rng, ck.tier):
+        seed, threads, ops, opt, gran, bs = cfg
+        rc, out, err = vlib.sh([exe] + [str(x) for x in cfg], timeout=300)
+        lines = out.splitlines()
+        rp = {"sections_cmd": "<c11sec harness> %s" % " ".join(str(x) for x in cfg), "seed": seed, "threads": threads, "ops": ops, "opt": opt,
+              "granularity": gran, "block_size": bs}
+        if rc != 0 or not lines or not lines[-1].startswith("END"):
+            ck.violation("C11/sections/harness-crash", "sections harness %s rc=%d: %s" % (cfg, rc, (out[-300:] + err[-600:])), rp)
+            continue
+        head = lines[0].split(" ;; ")
+        recs = [l.split(" ;; ") for l in lines[1:-1]]
+        stream, expect, handle_of, nalloc = [head[0]], [head[1]], {}, 0
+        prev_tid, inter = None, 0
+        for r in recs:
+            seq, tid, aseq = r[0].split()
+            cmd = r[1]
+            if cmd.startswith("A"):
+                handle_of[seq] = nalloc
+                nalloc += 1
+                line = cmd
+            elif cmd == "T":
+                line = "T"
+            else:
+                h = handle_of.get(aseq, -1)
+                parts = cmd.split()
+                line = "%s %d%s" % (parts[0], h, (" " + " ".join(parts[1:])) if len(parts) > 1 else "")
+            stream += [line, "D", "T"]
+            expect += [r[2], r[3], r[4]]
+            k = cmd[0]
+            info["sections_by_op"][k] = info["sections_by_op"].get(k, 0) + 1
+            if prev_tid is not None and tid != prev_tid:
+                inter += 1
+            prev_tid = tid
+        stream.append("X"); expect.append("X")
+        rcm, outm, errm = vlib.sh([model, "15"], inp="\n".join(stream) + "\n", timeout=600)
+        got = outm.splitlines()
+        info["runs"] += 1; info["sections"] += len(recs); info["interleaved_sections"] += inter
+        info["configs"].append({"seed": seed, "threads": threads, "ops_per_thread": ops, "options": opt, "granularity": gran, "block_size": bs,
+                                "sections": len(recs), "thread_switches": inter})
+        if rcm != 0 or len(got) != len(expect):
+            ck.violation("C11/sections/model-crash", "C09 model driver rc=%d produced %d lines for %d commands: %s" % (rcm, len(got), len(expect), errm[-300:]), rp, no_input=True)
+            continue
+        for i, (e, g) in enumerate(zip(expect, got)):
+            if e != g:
+                si = (i - 1) // 3
+                what = ["answer", "block table (D)", "counters (T)"][(i - 1) % 3] if i > 0 else "configuration"
+                r = recs[si] if 0 <= si < len(recs) else None
+                info["mismatches"] += 1
+                ck.violation("C11/seq-refines/%s/%s" % (r[1].split()[0] if r else "H", what.split()[0]),
+                             "critical section #%d (thread %s, %s) of a %d-thread run is not the C09 model step from the state the previous section left: %s differs: "
+                             "implementation %r, model %r" % (si, r[0].split()[1] if r else "-", r[1] if r else "H", threads, what, e, g),
+                             dict(rp, section_index=si, command_stream=stream[:i + 1][-40:], implementation=e, model=g,
+                                  previous_sections=[" ;; ".join(x) for x in recs[max(0, si - 3):si + 1]]))
+                break
+    return info
+
+
 def run(ck):
     rng = random.Random(ck.seed)
     if ck.replay:
@@ -229,7 +325,9 @@ def run(ck):
             ck.violation(key, "ThreadSanitizer %s in %s (%s) with %d threads on one %s [%s]; asmjit frames: %s" % (
                 rep["kind"], rep["function"], rep["location"], threads,
                 {"alloc": "JitAllocator", "runtime": "JitRuntime", "codegen": "process (independent code generation)",
-                 "ownrt": "process (every thread its own JitRuntime: only the process-wide caches are shared)"}[mode],
+                 "ownrt": "process (every thread its own JitRuntime: only the process-wide caches are shared)",
+                 "sweep": "process (every thread sweeps all x86 + AArch64 instruction ids through validate / rw-info / features / formatter / _emit)",
+                 "multirt": "set of JitRuntimes with different custom allocator parameters"}[mode],
                 "; ".join(alldiag[:3]) or "skeleton obligations hold", ", ".join(rep["asmjit_frames"])),
                 dict(rp, tsan_report=rep["text"], skeleton_diagnostics=diags))
         if details or any(l.startswith("MISMATCH") for l in summary):
@@ -246,6 +344,10 @@ def run(ck):
         elif rc not in (0, 66) or not summary:
             explored_bad = True
             ck.violation("C11/harness/%s-crash" % mode, "harness %s rc=%d: %s" % (cfg, rc, (out[-300:] + err[-1500:])), dict(rp, stderr=err[-4000:]))
+
+    # ---------------------------------------------------------------- seq_refines on captured critical sections (C09 model in acquire order)
+    sec_info = sections_check(ck, rng)
+    ck.log("sections: %d critical sections of %d concurrent runs replayed through the C09 model, %d mismatches" % (sec_info["sections"], sec_info["runs"], sec_info["mismatches"]))
 
     # ---------------------------------------------------------------- cold start: OUTSIDE the premise, documented only (never a violation)
     cold = {"runs": 0, "tsan_reports": 0, "racing_functions": [], "mismatches": 0}
@@ -293,7 +395,9 @@ def run(ck):
          "lock_implementation": sk_info["lock_impl"],
          "access_sites": len(st), "access_sites_under_lock": locked_sites,
          "statics_entry_points": st_entries,
-         "writable_globals": [list(x) for x in gl_syms], "object_symbols_by_section": getattr(S.gen_globals, "sections", {}),
+         "writable_globals": [list(x) for x in gl_syms],
+         "data_objects_per_translation_unit": getattr(S.gen_globals, "per_tu", {}),
+         "writable_globals_justification": allow_list_justifications(), "object_symbols_by_section": getattr(S.gen_globals, "sections", {}),
          "translator_snapshot_identical": r is None, "regenerated_files_failed": gen_failed, "checker_diagnostics": diags,
          "exploration": {"label": "EXPLORATION, not an obligation: schedules are sampled by the OS scheduler under ThreadSanitizer",
                          "stress_runs": len(plan), "stress_operations": ops_total, "tsan_reports": tsan_total,
@@ -301,10 +405,17 @@ def run(ck):
                          "runs": [{"mode": c[0], "seed": c[1], "threads": c[2], "ops_per_thread": c[3], "options": c[4]} for c in plan],
                          "replay_rule": "--replay <violation.json> re-runs the recorded (mode, seed, threads, ops, options) 20 times",
                          "summaries": lines},
+         "seq_refines_checked": dict(sec_info, note="hypothesis seq_refines of C11_concurrent_refines_c09 checked on sampled concurrent executions: every "
+                                     "critical section (captured inside the lock, in acquire order) equals the step of the extracted C09 model; also an empirical "
+                                     "linearisability check in acquire order"),
          "cold_start_outside_premise": dict(cold, note="threads whose first AsmJit call constructs a JitRuntime: CpuInfo::host()/VirtMem::info() initialise "
                                                         "concurrently; excluded by the premise 'once the host information has been initialised'; reports here are "
                                                         "recorded, never counted as violations")},
-        assumptions=["theorems are about the mutex model (one lock, sequentially consistent shared cells keyed by object and member); the step from the "
+        assumptions=["ASSUMED, not proved: operations on std::atomic objects never constitute a data race (C++ [intro.races]); the statics skeleton maps them to silent steps",
+                     "ASSUMED, not proved: no address forging - a thread can use the address of an allocator object only after reading it from a cell (object knowledge "
+                     "hypothesis of C11_init_once_published_by_knowledge); Span::_block belongs to the thread that owns the span",
+                     "ASSUMED, checked on sampled executions only: seq_refines (each critical section alone = one step of the C09 model) - see coverage.seq_refines_checked",
+                     "theorems are about the mutex model (one lock, sequentially consistent shared cells keyed by object and member); the step from the "
                      "lock skeleton to the C++ memory model / pthread mutex semantics is trusted and only probed by ThreadSanitizer",
                      "tools/c11_skeleton.py is trusted to see every MemberExpr / LockGuard / call of the entry points (clang 14 AST); accesses through "
                      "raw pointers are attributed only for bit-vector members passed to callees or subscripted; implicit destructors other than LockGuard are ignored",
